@@ -633,6 +633,12 @@ def load_externals(path, cfg=None):
 
 # ---------------------------------------------------------------------------------- pass S: splice
 
+def _ret_is_impl(sig_text):
+    """a function returning `impl Trait` needs its body for type inference: its body is kept when it is degraded"""
+    i = sig_text.rfind('->')
+    return i >= 0 and re.search(r'\bimpl\b', sig_text[i:]) is not None
+
+
 def splice(lines, contracts, injections, counts, report, externals=(), canary=False, body_lost=None):
     text = '\n'.join(l.text for l in lines)
     m = rsscan.mask(text)
@@ -717,7 +723,7 @@ def splice(lines, contracts, injections, counts, report, externals=(), canary=Fa
         ins_mark, lost_mark = len(ins), len(lost)
         if pre_lost:
             ins.append((f.hdr_start, -1, '#[verifier::external_body]\n', ('gen', 'degraded: proof anchor lost in ' + key)))
-            if f.has_body:
+            if f.has_body and not _ret_is_impl(text[f.start:f.open]):
                 # the body is not verified in this run: replace it (line preserving) so that rewrite wrappers that no
                 # longer fit the changed text cannot break the compilation of the rest of the crate
                 reps.append((f.open, f.close + 1, '{ unimplemented!()' + '\n' * text[f.open:f.close + 1].count('\n') + '}'))
@@ -841,7 +847,8 @@ def splice(lines, contracts, injections, counts, report, externals=(), canary=Fa
             del ins[ins_mark:]
             body_lost.append((key, why_[:200]))
             ins.append((f.hdr_start, -1, '#[verifier::external_body]\n', ('gen', 'degraded: proof anchor lost in ' + key)))
-            reps.append((f.open, f.close + 1, '{ unimplemented!()' + '\n' * text[f.open:f.close + 1].count('\n') + '}'))
+            if not _ret_is_impl(text[f.start:f.open]):
+                reps.append((f.open, f.close + 1, '{ unimplemented!()' + '\n' * text[f.open:f.close + 1].count('\n') + '}'))
         counts['contracts-spliced'] = counts.get('contracts-spliced', 0) + 1
     seen_ext = set()
     for kind, key, why in externals:
@@ -864,7 +871,8 @@ def splice(lines, contracts, injections, counts, report, externals=(), canary=Fa
                 continue
             attr = '#[verifier::external]' if kind == 'fn' else '#[verifier::external_body]'
             ins.append((cands[0].hdr_start, -1, attr + '\n', tag))
-            if kind == 'fnbody' and why.startswith('auto:') and cands[0].has_body and not any(r_[0] == cands[0].open for r_ in reps):
+            if kind == 'fnbody' and why.startswith('auto:') and cands[0].has_body and not any(r_[0] == cands[0].open for r_ in reps) \
+                    and not _ret_is_impl(text[cands[0].start:cands[0].open]):
                 f_ = cands[0]
                 # drop proof text spliced into the body and replace the body (see above)
                 ins[:] = [x for x in ins if not (f_.open < x[0] <= f_.close)]
